@@ -22,9 +22,11 @@ CONSTANTS Client,          \* set of client scripts: Seq of items [k: "hs"|"app"
           RecordMax,       \* 16384: send() encrypts at most this much per call
           DevSingleSendCall,          \* deviation: one send() per write(), return value ignored
           DevNoHsTimer,               \* deviation: no timer until the handshake has completed
-          DevReadOnceAfterHandshake   \* deviation: after the handshake only one recv(8192) is attempted
-VARIABLES cfg, fed, half, hs, hsTimer, innerUp, plainIn, replied, submitted, tcp, clientGot, closeNotify
-vars == <<cfg, fed, half, hs, hsTimer, innerUp, plainIn, replied, submitted, tcp, clientGot, closeNotify>>
+          DevReadOnceAfterHandshake,  \* deviation: after the handshake only one recv(8192) is attempted
+          DevPlainTimeoutReply        \* deviation: the handshake timeout writes "40 ..." to the TCP transport, unencrypted
+VARIABLES cfg, fed, half, hs, hsTimer, innerUp, plainIn, replied, submitted, tcp, clientGot, closeNotify,
+          rawOut      \* the server has put bytes on the TCP connection that are not TLS records
+vars == <<cfg, fed, half, hs, hsTimer, innerUp, plainIn, replied, submitted, tcp, clientGot, closeNotify, rawOut>>
 Items == cfg.c
 NeedHs == 2            \* client flights needed (ClientHello, Finished)
 RecvMax == 8192
@@ -36,7 +38,7 @@ AppBytes(lo, hi) == SumSeq([i \in 1..(hi - lo + 1) |-> IF Items[lo + i - 1].k = 
 Init == /\ cfg \in [c : Client, r : Replies]
         /\ fed = 0 /\ half = FALSE /\ hs = "pending" /\ hsTimer = (IF DevNoHsTimer THEN "none" ELSE "armed")
         /\ innerUp = FALSE /\ plainIn = 0 /\ replied = FALSE /\ submitted = 0
-        /\ tcp = "open" /\ clientGot = 0 /\ closeNotify = FALSE
+        /\ tcp = "open" /\ clientGot = 0 /\ closeNotify = FALSE /\ rawOut = FALSE
 
 Cipher(upto, leaveHalf) ==
   /\ tcp = "open"
@@ -80,13 +82,14 @@ Cipher(upto, leaveHalf) ==
                     /\ closeNotify' = TRUE /\ tcp' = "closing"
                ELSE /\ UNCHANGED <<replied, submitted, clientGot, closeNotify>>
                     /\ tcp' = IF done /\ (closes \/ junk) THEN "closing" ELSE tcp
-  /\ UNCHANGED cfg
+  /\ UNCHANGED <<cfg, rawOut>>
 
 HsTimerFire == /\ hsTimer = "armed" /\ hsTimer' = "fired" /\ tcp' = (IF tcp = "open" THEN "closing" ELSE tcp)
+               /\ rawOut' = (rawOut \/ (DevPlainTimeoutReply /\ tcp = "open"))
                /\ UNCHANGED <<cfg, fed, half, hs, innerUp, plainIn, replied, submitted, clientGot, closeNotify>>
 TcpLost == /\ tcp = "closing" /\ tcp' = "closed"
            /\ hsTimer' = (IF hsTimer = "armed" THEN "off" ELSE hsTimer)
-           /\ UNCHANGED <<cfg, fed, half, hs, innerUp, plainIn, replied, submitted, clientGot, closeNotify>>
+           /\ UNCHANGED <<cfg, fed, half, hs, innerUp, plainIn, replied, submitted, clientGot, closeNotify, rawOut>>
 Next == (\E u \in 0..7, h \in BOOLEAN : Cipher(u, h)) \/ HsTimerFire \/ TcpLost
 Spec == Init /\ [][Next]_vars /\ WF_vars(HsTimerFire) /\ WF_vars(TcpLost)
 
@@ -97,6 +100,8 @@ CompleteAtClose == closeNotify => clientGot = submitted                         
 ClosedAfterCloseNotify == closeNotify => tcp # "open"
 InnerOnlyAfterHandshake == innerUp => hs = "done"                                   \* C20
 NoPlainBeforeTls == (hs # "done") => plainIn = 0                                    \* C20
+\* C20: whatever arrives and whenever a timer fires, the server never answers outside TLS - no Gemini response in clear
+OnlyTlsOnWire == ~rawOut
 PlainInOrder == plainIn <= AppBytes(1, fed)                                         \* C07
 \* C07: every byte of every completely received record has been handed to the inner protocol, however the
 \* ciphertext was split into TCP reads (incl. records coalesced with the end of the handshake)
